@@ -339,6 +339,17 @@ class _Canon(_Subst):
                 return n.value.elts[n.slice.value]
         return n
 
+    def visit_BinOp(self, n):
+        n = self.generic_visit(n)
+        # (a, b) * 2 is (a, b, a, b); (a,) + (b,) is (a, b)
+        if isinstance(n.op, ast.Mult):
+            for t, k in ((n.left, n.right), (n.right, n.left)):
+                if isinstance(t, ast.Tuple) and isinstance(k, ast.Constant) and type(k.value) is int and 0 <= k.value <= 8 and not any(isinstance(x, ast.Starred) for x in t.elts):
+                    return ast.copy_location(ast.Tuple(elts=list(t.elts) * k.value, ctx=ast.Load()), n)
+        if isinstance(n.op, ast.Add) and isinstance(n.left, ast.Tuple) and isinstance(n.right, ast.Tuple) and not any(isinstance(x, ast.Starred) for x in n.left.elts + n.right.elts):
+            return ast.copy_location(ast.Tuple(elts=list(n.left.elts) + list(n.right.elts), ctx=ast.Load()), n)
+        return n
+
     def _flat(self, elts):
         """`*(a, b)` inside a display / an argument list is `a, b`"""
         out = []
@@ -727,6 +738,15 @@ class SymExec:
         if isinstance(e, ast.Compare):
             op = e.ops[0]
             r = e.comparators[0]
+            if isinstance(op, (ast.Is, ast.IsNot, ast.Eq, ast.NotEq)):
+                # `bool(x) is True`, `(a < b) == False`: the truth of the boolean-valued side
+                for side, other in ((e.left, r), (r, e.left)):
+                    if isinstance(other, ast.Constant) and isinstance(other.value, bool) and ((isinstance(side, ast.Call) and chain(side.func) == "bool" and len(side.args) == 1 and not side.keywords) or isinstance(side, (ast.Compare, ast.BoolOp)) or (isinstance(side, ast.UnaryOp) and isinstance(side.op, ast.Not))):
+                        inner = side.args[0] if isinstance(side, ast.Call) else side
+                        want = other.value == isinstance(op, (ast.Is, ast.Eq))
+                        for b, f in self.decide(inner, facts):
+                            yield (b == want), f
+                        return
             if isinstance(op, (ast.In, ast.NotIn)) and isinstance(r, (ast.Tuple, ast.List, ast.Set)) and not any(isinstance(x, ast.Starred) for x in r.elts):
                 if not r.elts:
                     yield isinstance(op, ast.NotIn), facts
@@ -1059,6 +1079,15 @@ class SymExec:
         path (created by a display, grown by append / extend only)"""
         if isinstance(it, ast.Name) and it.id in self._objs_now:
             it = self._objs_now[it.id]
+        c = chain(it)
+        if c is not None and c.count(".") == 1 and c.split(".")[0] in ("self", "cls") and getattr(getattr(self.fi, "cls", None), "qn", None):
+            # a tuple constant of the class: `_FIELDS = ("a", "b")` in the class body, never assigned elsewhere
+            try:
+                v, _ci = self.prog.class_attr(self.fi.cls.qn, c.split(".")[1])
+            except Exception:
+                v = None
+            if isinstance(v, ast.Tuple):
+                it = v
         if isinstance(it, ast.Call) and chain(it.func) in ("list", "tuple") and not it.args and not it.keywords:
             return []
         if isinstance(it, (ast.Tuple, ast.List)) and not any(isinstance(x, ast.Starred) for x in it.elts):
@@ -1080,6 +1109,13 @@ class SymExec:
             if not els:
                 return None
             return els[0] if len(els) == 1 else ast.Call(func=e.func, args=list(els), keywords=[])
+        if fn in ("tuple", "list") and isinstance(a, (ast.GeneratorExp, ast.ListComp)) and len(a.generators) == 1 and not a.generators[0].is_async and not a.generators[0].ifs and isinstance(a.generators[0].target, ast.Name):
+            g = a.generators[0]
+            els = self._elements(g.iter)
+            if els is None:
+                return None
+            out = [_Canon(self).visit(_Subst({g.target.id: x}, {}).visit(a.elt)) for x in els]
+            return ast.Tuple(elts=out, ctx=ast.Load()) if fn == "tuple" else ast.List(elts=out, ctx=ast.Load())
         if fn in ("any", "all") and isinstance(a, (ast.GeneratorExp, ast.ListComp)) and len(a.generators) == 1 and not a.generators[0].is_async and isinstance(a.generators[0].target, ast.Name):
             g = a.generators[0]
             els = self._elements(g.iter)
@@ -1610,29 +1646,71 @@ class SymExec:
         if len(e.args) != 2 or not isinstance(e.args[1], ast.Constant) or not isinstance(e.args[1].value, str):
             return e, {}
         subj = e.args[0]
-        vt = self._vtype(subj)
-        if vt is None:
-            return e, {}
         try:
             pat = ast.parse("match _:\n case %s:\n  pass" % e.args[1].value).body[0].cases[0].pattern
         except SyntaxError:
             return e, {}
-        if not isinstance(pat, ast.MatchSequence) or len(pat.patterns) != len(vt[1]):
+        r = self._pattern_cond(pat, subj)
+        if r is None:
             return e, {}
-        conds = [ast.Compare(left=subj, ops=[ast.IsNot()], comparators=[ast.Constant(value=None)])]
-        caps = {}
-        for i, p in enumerate(pat.patterns):
-            comp = ast.Attribute(value=subj, attr=vt[1][i], ctx=ast.Load())
-            if isinstance(p, ast.MatchValue):
-                conds.append(ast.Compare(left=comp, ops=[ast.Eq()], comparators=[p.value]))
-            elif isinstance(p, ast.MatchSingleton):
-                conds.append(ast.Compare(left=comp, ops=[ast.Is()], comparators=[ast.Constant(value=p.value)]))
-            elif isinstance(p, ast.MatchAs) and p.pattern is None:
-                if p.name is not None:
-                    caps[p.name] = comp
+        cond, caps = r
+        return cond, caps
+
+    def _pattern_cond(self, pat, subj):
+        """(condition, captures) equivalent to `subj` matching `pat`, or None.  Understood: literals, None/True/False,
+        captures and wildcards, alternatives without captures, fixed-length sequence patterns against a tuple display or a
+        declared namedtuple value."""
+        TRUE = ast.Constant(value=True)
+        if isinstance(pat, ast.MatchAs):
+            if pat.pattern is None:
+                return TRUE, ({pat.name: subj} if pat.name else {})
+            r = self._pattern_cond(pat.pattern, subj)
+            if r is None:
+                return None
+            return r[0], dict(r[1], **({pat.name: subj} if pat.name else {}))
+        if isinstance(pat, ast.MatchValue):
+            return ast.Compare(left=subj, ops=[ast.Eq()], comparators=[pat.value]), {}
+        if isinstance(pat, ast.MatchSingleton):
+            if pat.value is None:
+                return ast.Compare(left=subj, ops=[ast.Is()], comparators=[ast.Constant(value=None)]), {}
+            # `case True` on bool(x): the truth of x
+            if isinstance(subj, ast.Call) and chain(subj.func) == "bool" and len(subj.args) == 1:
+                return (subj.args[0] if pat.value else ast.UnaryOp(op=ast.Not(), operand=subj.args[0])), {}
+            return ast.Compare(left=subj, ops=[ast.Is()], comparators=[ast.Constant(value=pat.value)]), {}
+        if isinstance(pat, ast.MatchOr):
+            parts = []
+            for alt in pat.patterns:
+                r = self._pattern_cond(alt, subj)
+                if r is None or r[1]:
+                    return None
+                parts.append(r[0])
+            return ast.BoolOp(op=ast.Or(), values=parts), {}
+        if isinstance(pat, ast.MatchSequence) and not any(isinstance(q, ast.MatchStar) for q in pat.patterns):
+            comps = None
+            pre = []
+            if isinstance(subj, ast.Tuple) and len(subj.elts) == len(pat.patterns) and not any(isinstance(x, ast.Starred) for x in subj.elts):
+                comps = list(subj.elts)
             else:
-                return e, {}
-        return (ast.BoolOp(op=ast.And(), values=conds) if len(conds) > 1 else conds[0]), caps
+                vt = self._vtype(subj)
+                if vt is not None and len(vt[1]) == len(pat.patterns):
+                    comps = [ast.Attribute(value=subj, attr=f, ctx=ast.Load()) for f in vt[1]]
+                    pre = [ast.Compare(left=subj, ops=[ast.IsNot()], comparators=[ast.Constant(value=None)])]
+                elif vt is not None:
+                    return ast.Constant(value=False), {}
+            if comps is None:
+                return None
+            conds, caps = list(pre), {}
+            for q, c in zip(pat.patterns, comps):
+                r = self._pattern_cond(q, c)
+                if r is None:
+                    return None
+                if not (isinstance(r[0], ast.Constant) and r[0].value is True):
+                    conds.append(r[0])
+                caps.update(r[1])
+            if not conds:
+                return TRUE, caps
+            return (ast.BoolOp(op=ast.And(), values=conds) if len(conds) > 1 else conds[0]), caps
+        return None
 
     def _exec(self, nid, s, st):
         if isinstance(s, (ast.FunctionDef, ast.AsyncFunctionDef)):
@@ -1647,8 +1725,22 @@ class SymExec:
             e, st = self._pre(s.value, st, nid, s)
             for v, f in self.value(e, st.facts):
                 st2 = st.but(facts=f)
-                for t in s.targets:
+                for t in sorted(s.targets, key=lambda t: 0 if isinstance(t, ast.Name) else 1) if (_is_mutable_ctor(v) and len(s.targets) > 1) else s.targets:
+                    # `(m := f()).attr = v`: the target expression is evaluated (and binds m) after the value
+                    ws = [n for n in ast.walk(t) if isinstance(n, ast.NamedExpr)]
+                    if ws:
+                        repl = {}
+                        for w in sorted(ws, key=lambda n: (getattr(n, "end_lineno", 0), getattr(n, "end_col_offset", 0))):
+                            wv = self.subst(_Repl(repl).visit(w.value), st2.env, st2.chains)
+                            st2 = self._bind(nid, s, w.target, wv, st2, raw=w.value)
+                            repl[id(w)] = ast.Name(id=w.target.id, ctx=ast.Load())
+                        t = _Repl(repl).visit(t)
+                    if isinstance(t, (ast.Attribute, ast.Subscript)) and any(isinstance(n, ast.Call) for n in _walk_values(t.value)):
+                        # calls made while the target is evaluated (`f().attr = v`) are effects of the statement too
+                        st2 = st2.but(events=st2.events + (self._ev(st2, "expr", nid, s, value=self.subst(t.value, st2.env, st2.chains), raw=t.value),))
                     st2 = self._bind(nid, s, t, v, st2, raw=s.value)
+                    if isinstance(t, ast.Name) and _is_mutable_ctor(v) and len(s.targets) > 1:
+                        v = ast.Name(id=t.id, ctx=ast.Load())  # `a = b = {}`: the other targets hold the same object
                 yield st2
             return
         if isinstance(s, ast.AnnAssign):
@@ -2104,7 +2196,7 @@ class KwFlow:
 
     # ------------------------------------------------------------------ entry
     def decidable(self):
-        return bool(self.shape)
+        return True  # also without any tag: local constants, values handed on to callees
 
     def run(self):
         """-> (dead node ids, {id(stmt): exception name certainly raised}) or None"""
@@ -2117,9 +2209,15 @@ class KwFlow:
         a = node.args
         env = {}
         heap = {}
+        allp = a.posonlyargs + a.args
+        dflt = {p.arg: d for p, d in zip(reversed(allp), reversed(a.defaults))}
+        dflt.update({p.arg: d for p, d in zip(a.kwonlyargs, a.kw_defaults) if d is not None})
         for p in a.posonlyargs + a.args + a.kwonlyargs:
             t = self.shape.get(p.arg)
-            env[p.arg] = self._from_tag(t)
+            if t == ("default",) and isinstance(dflt.get(p.arg), ast.Name) and dflt[p.arg].id not in self.locals:
+                env[p.arg] = self.module_value(dflt[p.arg].id)  # the default expression, evaluated where it is written
+            else:
+                env[p.arg] = self._from_tag(t)
         if a.vararg:
             env[a.vararg.arg] = TOP
         if a.kwarg:
@@ -2185,8 +2283,8 @@ class KwFlow:
         xa, xb = self._alts(a), self._alts(b)
         if xa is not None and xb is not None and len(xa | xb) <= 6:
             return ("oneof", xa | xb)  # e.g. "block1" if c else "block2"
-        if self._not_none(a) and self._not_none(b) and all(self._storable(x) for x in (a, b)):
-            return NN
+        if all(x[0] in ("nn", "tuple", "oneof") or (x[0] == "const" and x[2] is not None) or (x[0] == "keyset" and x[3]) for x in (a, b)) and self._not_none(a) and self._not_none(b) and all(self._storable(x) for x in (a, b)):
+            return NN  # some value (a number, a string, a slice, a tuple): not None, and not one of the unique objects
         for v, s in ((a, sa), (b, sb)):
             self.escape_val(v, s)
         return TOP
@@ -2350,6 +2448,8 @@ class KwFlow:
             return None
         if (a[0] == "nn" and _is_const(b) and b[2] is None) or (b[0] == "nn" and _is_const(a) and a[2] is None):
             return False
+        if (a[0] == "nn" and b[0] in ("obj", "ref", "func", "callable", "list")) or (b[0] == "nn" and a[0] in ("obj", "ref", "func", "callable", "list")):
+            return False  # a freshly computed value is not a pre-existing unique object
         if a[0] == "nn" or b[0] == "nn":
             return None
         if a[0] == "obj" or b[0] == "obj":
@@ -2588,11 +2688,28 @@ class KwFlow:
         return ("list", tuple(self._elt(self.ev(x, st), st) for x in e.elts))
 
     def ev_Set(self, e, st):
-        vals = [self.ev(x.value if isinstance(x, ast.Starred) else x, st) for x in e.elts]
-        if not any(isinstance(x, ast.Starred) for x in e.elts) and all(self._hkey(v) for v in vals):
-            ks = frozenset(v[2] for v in vals)
-            return ("keyset", ks, ks, False)
-        for v in vals:
+        must, may = frozenset(), frozenset()
+        ok = True
+        rest = []
+        for x in e.elts:
+            v = self.ev(x.value if isinstance(x, ast.Starred) else x, st)
+            if isinstance(x, ast.Starred):
+                ks = self.to_keyset(v, st)  # {*mapping, ...}: its keys (read only)
+                if ks is None:
+                    ok = False
+                    rest.append(v)
+                else:
+                    must = must | ks[0]
+                    may = None if (may is None or ks[1] is None) else may | ks[1]
+            elif self._hkey(v):
+                must = must | {v[2]}
+                may = None if may is None else may | {v[2]}
+            else:
+                ok = False
+                rest.append(v)
+        if ok:
+            return ("keyset", must, may, False)
+        for v in rest:
             self.escape_val(v, st)
         return TOP
 
@@ -2890,6 +3007,20 @@ class KwFlow:
                     return ("keyset", am | bm, None if (ay is None or by is None) else ay | by, False)
                 return ("keyset", (am - by) if by is not None else frozenset(), ay if ay is None else ay - bm, False)
             return TOP
+        if isinstance(e.op, ast.BitOr) and l[0] == "ref" and r[0] == "ref":
+            # d1 | d2: a new dictionary, d1 updated with d2 (reads both)
+            d, src = st.heap.get(l[1]), st.heap.get(r[1])
+            if d is not None and src is not None and not d.esc and not src.esc:
+                nd = _D(d.must, d.may, dict(d.vals))
+                if src.may is None:
+                    nd = nd.with_unknown_key()
+                    nd = _D(nd.must | src.must, None, {})
+                else:
+                    for kk in sorted(src.may, key=repr):
+                        nd = nd.with_key(kk, src.val(kk)) if src.has(kk) else _D.join(nd, nd.with_key(kk, src.val(kk)))
+                oid = "or@%d" % id(e)
+                st.heap[oid] = nd.escaped() if oid in st.heap else nd
+                return ("ref", oid)
         if isinstance(e.op, ast.Add) and l[0] in ("tuple", "list") and r[0] == l[0]:
             return (l[0], l[1] + r[1])
         self.escape_val(l, st)
@@ -2977,6 +3108,14 @@ class KwFlow:
             return vb
         if rb is None:
             return va
+        fresh = (ast.Dict, ast.DictComp)
+        if va[0] == "ref" and vb[0] == "ref" and va != vb and all(isinstance(x, fresh) or (isinstance(x, ast.Call) and chain(x.func) == "dict") for x in (e.body, e.orelse)):
+            # either of two dictionaries made on the spot: one object that is their join (nothing else refers to them)
+            da, db = ra.heap.get(va[1]), rb.heap.get(vb[1])
+            if da is not None and db is not None:
+                oid = "either@%d" % id(e)
+                st.heap[oid] = _D.join(da, db).escaped() if oid in st.heap else _D.join(da, db)
+                return ("ref", oid)
         return va if va == vb else self.join_val(va, vb, st, st)
 
     def ev_Compare(self, e, st):
@@ -3339,11 +3478,14 @@ class KwFlow:
                     if v[0] == "func":
                         self.escape_val(v, st)
                 return TOP
-            if not shadow and f.id == "setattr" and len(e.args) == 3 and not e.keywords:
-                vals = self.call_args(e, st)
-                self.escape_val(vals[2], st)
+            if not shadow and f.id == "setattr" and not e.keywords and e.args and not isinstance(e.args[0], ast.Starred):
+                vals = self.call_args(e, st)  # `setattr(obj, *item)` passes the elements of a tracked tuple
+                for v in vals[2:]:
+                    self.escape_val(v, st)
                 if self.depth == 0:
-                    nm = vals[1]
+                    nm = vals[1] if len(vals) == 3 and not any(isinstance(a, ast.Starred) and self.callinfo.get(id(e), {}).get("pos") is None and False for a in e.args) else TOP
+                    if len(vals) != 3:
+                        nm = TOP
                     self.setattrs.setdefault(id(e), set()).add(nm[2] if _is_const(nm) and isinstance(nm[2], str) else "?")
                 return K(None)
             if not shadow and f.id == "getattr" and len(e.args) in (2, 3) and not e.keywords:
@@ -3774,8 +3916,19 @@ class KwFlow:
 
     def do_AugAssign(self, s, st):
         v = self.ev(s.value, st)
-        self.escape_val(v, st)
         t = s.target
+        if not (isinstance(t, ast.Name) and isinstance(s.op, ast.BitOr) and v[0] == "ref" and st.env.get(t.id, TOP)[0] == "ref"):
+            self.escape_val(v, st)
+            self.unmodelled(st)
+        if isinstance(t, ast.Name) and isinstance(s.op, ast.BitOr) and st.env.get(t.id, TOP)[0] == "ref" and v[0] == "ref" and t.id not in self.untracked:
+            # d |= other: an in-place update with the entries of another tracked dictionary
+            d, src = st.heap.get(st.env[t.id][1]), st.heap.get(v[1])
+            if d is not None and src is not None and not src.esc and src.may is not None:
+                nd = d
+                for kk in sorted(src.may, key=repr):
+                    nd = nd.with_key(kk, src.val(kk)) if src.has(kk) else _D.join(nd, nd.with_key(kk, src.val(kk)))
+                st.heap[st.env[t.id][1]] = nd
+                return
         if isinstance(t, ast.Name):
             cur = st.env.get(t.id, TOP)
             self.escape_val(cur, st)
@@ -4108,6 +4261,155 @@ class KwFlow:
         r.ret, r.brk, r.cont, r.exc = o.ret, o.brk, o.cont, o.exc
         return r
 
+    def match_pattern(self, pat, v, st, binds):
+        """does pattern `pat` match the value v?  True / False / None; captures are collected in `binds`"""
+        if isinstance(pat, ast.MatchAs):
+            r = True if pat.pattern is None else self.match_pattern(pat.pattern, v, st, binds)
+            if pat.name is not None and r is not False:
+                binds[pat.name] = v
+            return r
+        if isinstance(pat, ast.MatchSingleton):
+            return self._identical(v, K(pat.value))
+        if isinstance(pat, ast.MatchValue):
+            return self._equal(v, self.ev(pat.value, st))
+        if isinstance(pat, ast.MatchOr):
+            res = False
+            for alt in pat.patterns:
+                b2 = {}
+                r = self.match_pattern(alt, v, st, b2)
+                if r is True:
+                    binds.update(b2)
+                    return True
+                if r is None:
+                    res = None
+                    for k in b2:
+                        binds[k] = TOP
+            return res
+        if isinstance(pat, ast.MatchSequence):
+            if v[0] in ("const",) and (v[2] is None or isinstance(v[2], (bool, int, float, str, bytes))):
+                return False  # None, numbers, strings and bytes are not sequences for `match`
+            if v[0] in ("ref", "view", "keyset", "obj", "func", "callable"):
+                return False
+            if v[0] not in ("tuple", "list"):
+                for sub in ast.walk(pat):
+                    if isinstance(sub, (ast.MatchAs, ast.MatchStar)) and sub.name:
+                        binds[sub.name] = TOP
+                return None
+            elts = list(v[1])
+            stars = [i for i, q in enumerate(pat.patterns) if isinstance(q, ast.MatchStar)]
+            if not stars and len(pat.patterns) != len(elts):
+                return False
+            if stars and (len(stars) > 1 or len(elts) < len(pat.patterns) - 1):
+                return False
+            res = True
+            if stars:
+                i = stars[0]
+                tail = len(pat.patterns) - 1 - i
+                pairs = list(zip(pat.patterns[:i], elts[:i])) + (list(zip(pat.patterns[i + 1:], elts[len(elts) - tail:])) if tail else [])
+                if pat.patterns[i].name:
+                    binds[pat.patterns[i].name] = ("list", tuple(elts[i:len(elts) - tail]))
+            else:
+                pairs = list(zip(pat.patterns, elts))
+            for q, x in pairs:
+                r = self.match_pattern(q, x, st, binds)
+                if r is False:
+                    return False
+                if r is None:
+                    res = None
+            return res
+        if isinstance(pat, ast.MatchMapping):
+            if v[0] in ("const", "tuple", "list", "keyset", "obj", "func", "callable", "oneof", "nn") and v[0] != "nn":
+                return False
+            d = st.heap.get(v[1]) if v[0] == "ref" else None
+            if d is None or d.esc:
+                for sub in ast.walk(pat):
+                    if isinstance(sub, (ast.MatchAs, ast.MatchStar)) and sub.name:
+                        binds[sub.name] = TOP
+                if pat.rest:
+                    binds[pat.rest] = TOP
+                return None
+            res = True
+            for kx, q in zip(pat.keys, pat.patterns):
+                kv = self.ev(kx, st)
+                if not self._hkey(kv):
+                    res = None
+                    self.match_pattern(q, TOP, st, binds)
+                    continue
+                h = d.has(kv[2])  # mapping patterns look keys up with .get(): nothing is removed
+                if h is False:
+                    return False
+                r = self.match_pattern(q, d.val(kv[2]), st, binds)
+                if r is False:
+                    return False
+                if h is None or r is None:
+                    res = None
+            if pat.rest:
+                binds[pat.rest] = TOP
+            return res
+        for sub in ast.walk(pat):
+            if isinstance(sub, (ast.MatchAs, ast.MatchStar)) and getattr(sub, "name", None):
+                binds[sub.name] = TOP
+        return None
+
+    def do_Match(self, s, st):
+        """cases are tried in order: a case that certainly matches ends the statement, one that certainly does not is
+        dead, an undecided one is executed on a copy of the state (with the membership facts of a mapping pattern)"""
+        subj = self.ev(s.subject, st)
+        out = _Out()
+        cur = st
+        for case in s.cases:
+            if cur is None:
+                break
+            binds = {}
+            r = self.match_pattern(case.pattern, subj, cur, binds)
+            if r is False:
+                continue
+            body_st = cur.copy() if r is None else cur
+            if r is None:
+                self.unmodelled(cur)
+            for k, v in binds.items():
+                if not (self._storable(v) or v[0] in ("list", "func")):
+                    self.escape_val(v, body_st)
+                    v = TOP
+                body_st.env[k] = v
+            if isinstance(case.pattern, ast.MatchMapping) and subj[0] == "ref":
+                d = body_st.heap.get(subj[1])
+                if d is not None and not d.esc:
+                    for kx in case.pattern.keys:
+                        if isinstance(kx, ast.Constant) and isinstance(kx.value, (str, int, bytes)):
+                            d = _D(d.must | {kx.value}, None if d.may is None else d.may | {kx.value}, dict(d.vals))
+                    body_st.heap[subj[1]] = d
+            certain = r is True
+            if case.guard is not None:
+                g = self.truth(self.ev(case.guard, body_st), body_st)
+                if g is False:
+                    if certain:
+                        cur = body_st
+                    continue
+                if g is None:
+                    certain = False
+                    if r is True:
+                        # the guard decides: keep a copy for the cases below
+                        rest = body_st.copy()
+                        self.refine(case.guard, rest, False)
+                        self.refine(case.guard, body_st, True)
+                        o = self.block(case.body, body_st)
+                        out = self.merge(out, o)
+                        cur = rest
+                        continue
+            o = self.block(case.body, body_st)
+            out = self.merge(out, o)
+            if certain:
+                cur = None
+            elif r is None and isinstance(case.pattern, ast.MatchMapping) and subj[0] == "ref" and len(case.pattern.keys) == 1 and isinstance(case.pattern.keys[0], ast.Constant) and isinstance(case.pattern.patterns[0], ast.MatchAs) and case.pattern.patterns[0].pattern is None and case.guard is None:
+                # `case {"k": name}` not matching means the key is absent
+                d = cur.heap.get(subj[1])
+                if d is not None and not d.esc:
+                    cur.heap[subj[1]] = d.without(case.pattern.keys[0].value)
+        if cur is not None:
+            out.next = self.join(out.next, cur)
+        return out
+
     def do_With(self, s, st):
         for it in s.items:
             v = self.ev(it.context_expr, st)
@@ -4155,13 +4457,14 @@ class ShapedEscapes(_EscapeAnalysis):
         self._grow = {}
         self._cur = None
         self._cur_fi = None
+        self._cur_shape = None
         self.flow_log = []  # (function, shape summary, number of dead nodes) for the evidence file
 
     def _flow(self, fi, shape):
         key = (fi.qn, shape)
         if key not in self._flows:
             res = None
-            if shape:
+            if shape is not None:
                 kf = KwFlow(self.prog, fi, shape)
                 try:
                     res = kf.run()
@@ -4179,12 +4482,12 @@ class ShapedEscapes(_EscapeAnalysis):
         key = (fi.qn, shape, selfcls)
         if key in self.memo or key in self.inprogress:
             return _EscapeAnalysis.escapes(self, fi, shape, selfcls)
-        saved = (self._cur, self._cur_fi)
-        self._cur, self._cur_fi = self._flow(fi, shape), fi
+        saved = (self._cur, self._cur_fi, self._cur_shape)
+        self._cur, self._cur_fi, self._cur_shape = self._flow(fi, shape), fi, shape
         try:
             return _EscapeAnalysis.escapes(self, fi, shape, selfcls)
         finally:
-            self._cur, self._cur_fi = saved
+            self._cur, self._cur_fi, self._cur_shape = saved
 
     def _stmt(self, fi, st, shape, caught):
         cur = self._cur
@@ -4292,7 +4595,7 @@ class ShapedEscapes(_EscapeAnalysis):
         cur = self._cur
         info = cur[2].get(id(call)) if cur is not None and caller is self._cur_fi and len(cur) > 2 else None
         if info is None:
-            return _EscapeAnalysis.shape_for(self, caller, call, callee, extra_first)
+            return self._default_tags(call, callee, _EscapeAnalysis.shape_for(self, caller, call, callee, extra_first), ())
         use = call
         maybe = set()
         nn_keys = {}
@@ -4339,7 +4642,30 @@ class ShapedEscapes(_EscapeAnalysis):
                 extra = frozenset(n for n in maybe if n not in declared)
                 if t is not None and extra:
                     sh[key] = ("maykeys", frozenset(t[1]) | extra)
-        return frozenset(sh.items())
+        return self._default_tags(use, callee, frozenset(sh.items()), maybe)
+
+    def _default_tags(self, call, callee, shape, maybe):
+        """A parameter that the call certainly does not pass and whose default is not a literal (a private sentinel
+        `_UNSET`, a module constant) is tagged ("default",): KwFlow evaluates the default expression itself.  (The
+        engine tags it `present`, the same as an argument of unknown value.)"""
+        if any(isinstance(a, ast.Starred) for a in call.args) or any(k.arg is None for k in call.keywords):
+            return shape
+        a = callee.node.args
+        sh = dict(shape)
+        pnames = [x.arg for x in a.posonlyargs + a.args]
+        is_method = callee.cls is not None and not any(ast.unparse(d) == "staticmethod" for d in getattr(callee.node, "decorator_list", []))
+        passed = {k.arg for k in call.keywords} | set(maybe)
+        # positional arguments: conservatively, the first len(args) + 1 parameters count as passed
+        passed |= set(pnames[: len(call.args) + (1 if is_method else 0) + 1])
+        allp = a.posonlyargs + a.args
+        defaults = {p.arg: d for p, d in zip(reversed(allp), reversed(a.defaults))}
+        defaults.update({p.arg: d for p, d in zip(a.kwonlyargs, a.kw_defaults) if d is not None})
+        ch = False
+        for name, d in defaults.items():
+            if name not in passed and sh.get(name) == ("present",) and isinstance(d, (ast.Name, ast.Attribute)):
+                sh[name] = ("default",)
+                ch = True
+        return frozenset(sh.items()) if ch else shape
 
 
 def apply_callable(sx, path, cb, args, imports=None):
@@ -4358,7 +4684,7 @@ def apply_callable(sx, path, cb, args, imports=None):
         if len(env) != len(names):
             return None
         return _Subst(env, {}).visit(cb.body)
-    if isinstance(cb, ast.Name) and cb.id in path.defs:
+    if isinstance(cb, ast.Name) and path is not None and cb.id in path.defs:
         return ast.Call(func=cb, args=list(args), keywords=[])
     if isinstance(cb, ast.Call) and (chain(cb.func) or "").split(".")[-1] == "partial" and cb.args and not cb.keywords:
         return apply_callable(sx, path, cb.args[0], list(cb.args[1:]) + list(args), imports)
@@ -4402,6 +4728,25 @@ def filtered_iter(sx, path, it, elem, imports=None):
                 conds.append(c)
                 it = it.args[1]
                 continue
+            if q == "itertools.compress" and len(it.args) == 2:
+                # compress(data, selectors) with the selectors computed element by element from the same collection:
+                # data = d.items() / d / d.keys(), selectors = (C(k) for k in d / d.keys())
+                data, sel = it.args
+
+                def base_of(x):
+                    if isinstance(x, ast.Call) and isinstance(x.func, ast.Attribute) and x.func.attr in ("items", "keys") and not x.args and not x.keywords:
+                        return x.func.value, x.func.attr
+                    return x, "keys"
+
+                if isinstance(sel, (ast.GeneratorExp, ast.ListComp)) and len(sel.generators) == 1 and not sel.generators[0].ifs and not sel.generators[0].is_async and isinstance(sel.generators[0].target, ast.Name):
+                    g = sel.generators[0]
+                    (db, dk), (sb, sk) = base_of(data), base_of(g.iter)
+                    if sk == "keys" and txt(db) == txt(sb):
+                        keyx = ast.Subscript(value=elem, slice=ast.Constant(value=0), ctx=ast.Load()) if dk == "items" else elem
+                        conds.append(_Subst({g.target.id: keyx}, {}).visit(sel.elt))
+                        it = data
+                        continue
+                return None
             if q == "itertools.filterfalse" and len(it.args) == 2:
                 P_ = it.args[0]
                 c = elem if (isinstance(P_, ast.Constant) and P_.value is None) else apply_callable(sx, path, P_, [elem], imports)
@@ -4463,7 +4808,13 @@ def _shaped_call(self, fi, call, shape, st):
     into f at all."""
     g = call.func
     cur = self._cur
-    if isinstance(g, ast.Name) and g.id == "setattr" and len(call.args) == 3 and cur is not None and len(cur) > 3 and fi is self._cur_fi:
+    if isinstance(g, ast.Call) and (chain(g.func) or "").split(".")[-1] in ("attrgetter", "itemgetter") and all(isinstance(x, ast.Constant) for x in g.args) and not g.keywords:
+        # operator.attrgetter("a", "b")(x) reads attributes of x: nothing of the program is called
+        out = set()
+        for a_ in call.args:
+            out |= self._expr(fi, a_.value if isinstance(a_, ast.Starred) else a_, shape, st)
+        return out
+    if isinstance(g, ast.Name) and g.id == "setattr" and call.args and not isinstance(call.args[0], ast.Starred) and cur is not None and len(cur) > 3 and fi is self._cur_fi:
         names = cur[3].get(id(call))
         if names and "?" not in names:
             # setattr(obj, <one of these names>, v) on an object without instance dictionary (__slots__ all the way
@@ -4554,6 +4905,13 @@ def _shaped_receiver_facts(self, fi, call):
     base = _EscapeAnalysis._receiver_facts(self, fi, call)
     if not isinstance(call.func, ast.Attribute) or isinstance(fi.node, ast.Lambda):
         return base
+    if isinstance(call.func.value, ast.Name) and call.func.value.id == "self" and fi is self._cur_fi and self._cur_shape and not any((isinstance(n, ast.Name) and n.id == "self" and isinstance(n.ctx, ast.Store)) or (isinstance(n, (ast.Attribute, ast.Subscript)) and isinstance(n.ctx, (ast.Store, ast.Del)) and (chain(n) or "").split(".")[0] == "self") for n in ast.walk(fi.node)):
+        # the facts known about the receiver when this method was called still hold for its own calls on self
+        inherited = dict(self._cur_shape).get("@selffacts")
+        if inherited:
+            merged = dict(inherited[1])
+            merged.update(dict(base or ()))
+            base = frozenset(merged.items())
     from ..rulekit import writes_to_name
     from ..pat import dump
     recv = call.func.value
@@ -4727,3 +5085,26 @@ def _shaped_stmt(self, fi, st, shape, caught):
 
 
 ShapedEscapes._stmt = _shaped_stmt
+
+
+def inline_walrus(sx, exprs):
+    """Expressions evaluated one after the other (the conditions and the element of a comprehension): every assignment
+    expression `(x := e)` stands for e, and later uses of x for that value."""
+    env = {}
+    out = []
+    for e in exprs:
+        e = _Subst(env, {}).visit(e) if env else e
+        ws = [n for n in _walk_values(e) if isinstance(n, ast.NamedExpr)]
+        ws.sort(key=lambda n: (getattr(n, "end_lineno", 0), getattr(n, "end_col_offset", 0)))
+        repl = {}
+        for w in ws:
+            v = _Repl(repl).visit(w.value)
+            v = _Subst(env, {}).visit(v) if env else v
+            repl[id(w)] = v
+            # uses of x after the binding inside the same expression
+            env[w.target.id] = v
+        if repl:
+            e = _Repl(repl).visit(e)
+            e = _Subst(env, {}).visit(e)
+        out.append(sx.subst(e, {}))
+    return out
